@@ -5,6 +5,7 @@ import petl as etl
 from hypothesis import strategies as st
 
 from pv import gen, codec
+from pv import scale
 from pv import catgen
 from pv.core import Sub, Fail, exc_fail
 from pv.order import ref_cmp
@@ -53,6 +54,9 @@ def case(draw, tier):
          # then reach the operator directly)
          "presorted": draw(st.integers(0, 3)) == 0,
          "form": draw(st.sampled_from(["lists", "lists", "lists"] + catgen.FORMS))}
+    if len(tbl) > 1:
+        c["blowup"] = draw(scale.blowup(odds=30, sizes=[130, 300, 600, 1030], wide=False))
+        c["big_buffersize"] = draw(st.sampled_from([None, 1000, 7, "n/300", "n/130", "n/2"]))
     if op == "conflicts":
         c["missing"] = draw(st.sampled_from([None, None] + p))
         # include= / exclude= as a single name, a list or a tuple of names
@@ -83,6 +87,14 @@ def _rows2(view):
 
 
 def check(case, ctx):
+    if case.get("blowup"):
+        # at scale: rows repeated / one row a thousand times and the others after it; a few hundred chunk files
+        tbl = scale.apply(case["table"], case["blowup"])
+        nb = len(tbl) - 1
+        bs = case.get("big_buffersize")
+        bs = bs if not isinstance(bs, str) else max(1, nb // int(bs.split("/")[1]))
+        case = dict(case, table=tbl, buffersize=bs, upstream="none")
+        scale.label(ctx, case["blowup"])
     op, tbl, key, bs = case["op"], case["table"], case["key"], case["buffersize"]
     hdr = tuple(tbl[0])
     up = case.get("upstream", "none")
